@@ -12,6 +12,8 @@ for d in sorted(glob.glob("/verif/seeded/*/")):
     if pref and not any(sid.startswith(p) for p in pref):
         continue
     mp = d + "meta.json"
+    if not os.path.exists(mp):
+        continue
     m = json.load(open(mp))
     aimed = m["breaks_property"]
     # a change documented as caught only by another check keeps that check
@@ -21,7 +23,7 @@ for d in sorted(glob.glob("/verif/seeded/*/")):
         subprocess.run(["git","-C","/repo","apply",d+"patch.diff"],check=True)
         for cid in checks:
             t0 = time.time()
-            r = subprocess.run(["/verif/scripts/check.sh", cid, "quick"], capture_output=True, text=True)
+            r = subprocess.run(["/verif/scripts/check.sh", cid, "quick"], capture_output=True, text=True, errors="replace")
             out = r.stdout + r.stderr
             sigs = [l.strip()[:240] for l in out.splitlines() if l.startswith("  signature")]
             verdict = "CAUGHT" if r.returncode == 1 and "VIOLATION" in out else ("HARNESS-ERROR" if r.returncode == 3 else "MISSED")
